@@ -343,6 +343,9 @@ struct VecSession final : Session {
     static constexpr bool copyable = has_copy(K);
 
     Raw<T> obj[2];
+    // a corrupted owner that constructs past its storage (a constructor over a live object is invisible when it is a
+    // defaulted one) must not reach the std-side bookkeeping
+    unsigned char guard[1024] = {};
     // std side: sequence containers as std::vector<int>, sets as std::set<int> (kept in `vec`, sorted)
     AObj abs[2];
 
@@ -397,6 +400,10 @@ struct VecSession final : Session {
     // adopt the elements the owner claims to hold that came to life through a defaulted constructor
     void sweep()
     {
+        // an owner whose size exceeds its capacity is corrupt: nothing after this line is executed
+        for (int t = 0; t < 2; ++t) {
+            if (size_of(t) > static_cast<std::size_t>(CAP)) { reg.fail("size-exceeds-capacity"); }
+        }
         if constexpr (adopts(K)) {
             if (!reg.err.empty()) return;
             for (int t = 0; t < 2; ++t) {
